@@ -355,6 +355,85 @@ os._exit(0)
 '''
 
 
+def corrupt_case(case):
+    """an entry that cannot be unpickled (truncated anywhere, damaged bytes, a pickle naming a class this scanner does not
+    have, text, nothing) must be discarded by load - None returned, no exception - and the cache must work afterwards"""
+    seed, idx = case
+    st = setup_subject()
+    rng = core.rng_for(seed, 'c18corrupt', idx)
+    root = tempfile.mkdtemp(prefix='vt-c18k-', dir=SHM)
+    res = {'viol': [], 'kinds': collections.Counter()}
+    saved_env = os.environ.get('XDG_CACHE_HOME')
+    try:
+        fsched.ENV.sched = None
+        os.environ['XDG_CACHE_HOME'] = os.path.join(root, 'cache')
+        os.makedirs(os.environ['XDG_CACHE_HOME'])
+        tempfile.tempdir = os.path.join(root, 'tmp')
+        os.makedirs(tempfile.tempdir)
+        src = os.path.join(root, 'Dep-1.0.gir')
+        with open(src, 'w') as f:
+            f.write('<gir version 1/>')
+        old = time.time() - 100
+        os.utime(src, (old, old))
+        cs = st['cs'].CacheStore()
+        good = mkdata(1, 'good', rng.choice([50, 300, 5000]))
+        for k in range(12):
+            cs.store(src, good)
+            entry = cs._get_filename(src)
+            raw = open(entry, 'rb').read()
+            kind = rng.choice(['truncate', 'truncate', 'flip', 'flip', 'foreign-class', 'foreign-module', 'text', 'empty', 'bad-utf8', 'zeros'])
+            if kind == 'truncate':
+                bad = raw[:rng.randrange(0, len(raw))]
+            elif kind == 'flip':
+                b = bytearray(raw)
+                for _ in range(rng.choice([1, 2, 5])):
+                    b[rng.randrange(len(b))] = rng.randrange(256)
+                bad = bytes(b)
+            elif kind == 'foreign-class':
+                bad = b'\x80\x04\x95\x2b\x00\x00\x00\x00\x00\x00\x00\x8c\x13giscanner.girparser\x94\x8c\x0fNoSuchGIRParser\x94\x93\x94)\x81\x94.'
+            elif kind == 'foreign-module':
+                bad = b'\x80\x04\x95\x27\x00\x00\x00\x00\x00\x00\x00\x8c\x12giscanner.newmodule\x94\x8c\x0cFutureParser\x94\x93\x94)\x81\x94.'
+            elif kind == 'text':
+                bad = b'<?xml version="1.0"?>\n<repository/>\n'
+            elif kind == 'empty':
+                bad = b''
+            elif kind == 'bad-utf8':
+                bad = b'\x80\x04\x95\x0a\x00\x00\x00\x00\x00\x00\x00\x8c\x04\xff\xfe\xfd\xfc\x94.'
+            else:
+                bad = b'\0' * rng.choice([1, 16, 4096])
+            try:
+                pickle.loads(bad)
+                continue                    # still a readable pickle: not an unreadable entry
+            except BaseException as e:
+                res['kinds']['%s:%s' % (kind, type(e).__name__)] += 1
+            with open(entry, 'wb') as f:
+                f.write(bad)
+            try:
+                r = cs.load(src)
+            except BaseException as e:
+                res['viol'].append(('exception:load:%s' % type(e).__name__, 'load raised %s: %s on an unreadable entry (%s, %d bytes)' % (type(e).__name__, str(e)[:100], kind, len(bad)),
+                                    {'kind': kind, 'entry_hex': bad[:200].hex()}))
+                if os.path.exists(entry):
+                    os.unlink(entry)
+                continue
+            if r is not None:
+                res['viol'].append(('unreadable-entry-served', 'load returned %r from an unreadable entry (%s)' % (str(r)[:80], kind), {'kind': kind, 'entry_hex': bad[:200].hex()}))
+            elif os.path.exists(entry):
+                res['viol'].append(('broken-entry-kept', 'load returned None but left the unreadable entry (%s, %d bytes) in place' % (kind, len(bad)), {'kind': kind, 'entry_hex': bad[:200].hex()}))
+            cs.store(src, good)
+            r2 = cs.load(src)
+            if not (data_ok(r2) and r2['by'] == 'good'):
+                res['viol'].append(('cache-unusable-after-bad-entry', 'store+load after discarding a bad entry (%s) gives %r' % (kind, str(r2)[:80]), {'kind': kind}))
+        return res
+    finally:
+        tempfile.tempdir = None
+        if saved_env is None:
+            os.environ.pop('XDG_CACHE_HOME', None)
+        else:
+            os.environ['XDG_CACHE_HOME'] = saved_env
+        shutil.rmtree(root, ignore_errors=True)
+
+
 def vcrash_case(case):
     """a scanner of a new version is killed at step k while it opens a cache that holds an entry of the old version;
     another scanner of the new version then opens the cache and loads"""
@@ -688,11 +767,15 @@ def work(item):
     elif kind == 'rnd':
         _, spec, seed, n = item
         r = explore_random(spec, seed, n)
+    elif kind == 'corrupt':
+        r0 = corrupt_case(item[1])
+        r = {'runs': 12, 'distinct': len(r0['kinds']), 'exhausted': False, 'viol': [(k, w, dict(rp, case=list(item[1]))) for k, w, rp in r0['viol']],
+             'corrupt': dict(r0['kinds'])}
     elif kind in ('crash', 'vcrash'):
         r0 = crash_case(item[1]) if kind == 'crash' else vcrash_case(item[1])
         r = {'runs': 1, 'distinct': 1, 'exhausted': False, 'viol': [(k, w, {'case': item[1], 'child': r0.get('child')}) for k, w in r0['viol']],
              'crash': {'killed': r0.get('killed'), 'label': r0.get('label'), 'first_load': r0.get('first_load'), 'harness': r0.get('harness')}}
-    r['item'] = [kind, item[1] if kind not in ('crash', 'vcrash') else list(item[1])]
+    r['item'] = [kind, item[1] if kind not in ('crash', 'vcrash', 'corrupt') else list(item[1])]
     for v in r['viol']:
         pass
     return r
@@ -722,6 +805,8 @@ def run(args):
             items.append(('crash', (args.seed, crossfs, k, 500)))
     for k in range(1, 12):
         items.append(('vcrash', (args.seed, False, k, 500)))
+    for k in range(int((20 if quick else 600) * args.scale) or 1):
+        items.append(('corrupt', (args.seed, k)))
     rng = core.rng_for(args.seed, 'c18-order')
     rng.shuffle(items)
     total_sched = 0
@@ -743,6 +828,10 @@ def run(args):
             chk.monitor_hits['schedules_judged'] += r['runs']
             if r['exhausted']:
                 chk.monitor_hits['operation_pairs_exhausted'] += 1
+        elif kind == 'corrupt':
+            for kk, vv in r.get('corrupt', {}).items():
+                chk.monitor_hits['unreadable_entries'] += vv
+                chk.cls('corrupt|' + kk)
         else:
             c = r.get('crash', {})
             if c.get('harness'):
@@ -776,6 +865,7 @@ def run(args):
     chk.require(chk.monitor_hits['schedules_judged'] > 0, 'no schedule judged')
     chk.require(chk.monitor_hits['crash_points'] > 5, 'crash injection did not kill the store')
     chk.require(chk.monitor_hits['version_purge_crash_points'] > 2, 'crash injection did not kill the version purge')
+    chk.require(chk.monitor_hits['unreadable_entries'] > 20, 'too few unreadable entries tried')
     chk.require(chk.monitor_hits['stress_loads'] > 50, 'stress produced too few loads')
     chk.require(hf <= 2, 'harness failures: %d' % hf)
     chk.assumptions = ['scheduler workload replaces cachestore._get_versionhash by a per-operation constant (the real function is exercised by the stress workload)',
